@@ -14,7 +14,7 @@ RULE = ("(annotation a, annotation b = a rebuilt in shuffled insertion order wit
         "bound, a track name, a label, an extra or a missing track; different uri/modality): observed a==b, a!=b, "
         "copy/from_records/from_df/timeline round trips, timeline ==/!=, to_rttm / to_lab / to_uem (also through "
         "write_*), str(segment); times shifted to negative values in a third of the cases and beyond one day (either sign) in 8%; uris and labels with spaces "
-        "in 15%; regimes K0 (1/1024 s grid, exercises .3f rounding ties), K4, K1; non-trivial = at least two records")
+        "in 15%; regimes K0 (1/1024 s grid, exercises .3f rounding ties), K4, K1 and P3 (set_precision(3), decimal millisecond values); non-trivial = at least two records")
 
 
 def _distinct_str(recs):
@@ -33,8 +33,8 @@ def generate(rng, tier):
     cases = []
     n = 5000 if tier == "thorough" else 600
     kinds = {}
-    for regime in ("K0", "K4", "K1"):
-        for _ in range(n):
+    for regime in ("K0", "K4", "K1", "P3"):
+        for _ in range(n if regime != "P3" else n // 2):
             labels = list(LABELS[: rng.randrange(1, 5)])
             if rng.random() < 0.15:
                 labels.append(rng.choice(["bad label", "bad label", " lead", "trail ", " "]))
@@ -77,6 +77,10 @@ def generate(rng, tier):
             elif b and kind == "missing":
                 b.pop(rng.randrange(len(b)))
             b = _distinct_str(b)
+            if regime == "P3":
+                # every length an even number of ticks: never exactly one tick (see timebase.REGIMES["P3"])
+                a = [[[2 * s[0], 2 * s[1]], t, l] for s, t, l in a]
+                b = [[[2 * s[0], 2 * s[1]], t, l] for s, t, l in b]
             kinds[kind] = kinds.get(kind, 0) + 1
             cases.append({"regime": regime, "a": a, "b": b,
                           "ua": rng.choice([None, "u1", "", "file2", "my file"] if rng.random() < 0.3 else [None, "u1"]),
